@@ -1831,6 +1831,11 @@ func (c *Ctx) sliceOp(s *State, fr *Frame, x *ssa.Slice) {
 	nl := c.bind(s, x.Name()+"#len", c.ar.idxSort(), c.idxSub(hi, lo))
 	nc := c.bind(s, x.Name()+"#cap", c.ar.idxSort(), c.idxSub(mx, lo))
 	no := c.bind(s, x.Name()+"#off", c.ar.idxSort(), c.idxAdd(off, lo))
+	if lo != c.ar.idx(0) && off != c.ar.idx(0) && no != off {
+		// re-slicing shifts relative indices: element k of the new slice is element k+lo of the old one. Stating this
+		// on the index terms lets quantified facts about the old slice (triggered on sidx off _) apply to the new one.
+		c.assume(s, fmt.Sprintf("(forall ((k %s)) (! (= (sidx %s k) (sidx %s %s)) :pattern ((sidx %s k))))", c.ar.idxSort(), no, off, c.idxAdd("k", lo), no))
+	}
 	fr.regs[x] = SliceV{arr, no, nl, nc, x.Type()}
 }
 
@@ -1902,6 +1907,7 @@ func (c *Ctx) havocHeapNamed(s *State, name, sort string) string {
 	c.declConst(s, n, sort)
 	s.heap[name] = n
 	s.touched[name] = true
+	c.noteHeapVersion(s, name)
 	return n
 }
 
@@ -1941,6 +1947,15 @@ func (c *Ctx) elemIdx(off, i string) string {
 	if off == c.ar.idx(0) {
 		return i
 	}
+	// i == (abs - off): the absolute index itself (quantifiers over absolute indices, see SpecEnv.quant)
+	for _, op := range []string{"(- ", "(bvsub "} {
+		if strings.HasPrefix(i, op) && strings.HasSuffix(i, " "+off+")") {
+			inner := i[len(op) : len(i)-len(off)-2]
+			if balancedTerm(inner) {
+				return inner
+			}
+		}
+	}
 	if _, ok := c.ar.numeral(off); ok {
 		if _, ok2 := c.ar.numeral(i); ok2 {
 			return c.idxAdd(off, i)
@@ -1961,4 +1976,27 @@ func (c *Ctx) zeroFillFixedArray(s *State, ref string, at *types.Array) {
 		return
 	}
 	c.zeroFillArray(s, ref, el)
+}
+
+// balancedTerm: s is a single atom or a single balanced s-expression.
+func balancedTerm(s string) bool {
+	if s == "" {
+		return false
+	}
+	if s[0] != '(' {
+		return !strings.ContainsAny(s, " ()")
+	}
+	d := 0
+	for i, ch := range s {
+		switch ch {
+		case '(':
+			d++
+		case ')':
+			d--
+			if d == 0 && i != len(s)-1 {
+				return false
+			}
+		}
+	}
+	return d == 0
 }
